@@ -46,7 +46,10 @@ def get_module(name):
     if name not in _MODULES:
         mod = importlib.import_module(name)
         if hasattr(mod, 'warmup'):
-            mod.warmup()
+            try:
+                mod.warmup()      # only there to trigger lazy compilation (networkx argmap); its verdicts are ignored
+            except Exception:
+                traceback.print_exc()
         _MODULES[name] = mod
     return _MODULES[name]
 
@@ -75,8 +78,24 @@ def parse_call(message, fn_name):
     return None
 
 
+_FLOAT_PATCHED = []
+
+
+def _float_as_real():
+    """CrossHair forks every float into a real-based and a bit-precise IEEE representation; the IEEE branch
+    (fpRealToFP of an unbounded integer) takes minutes per query.  E1 harnesses meet floats only through
+    ``float(int)`` integrality tests, exact for |n| < 2**53, so the real-based representation is used alone
+    (stated as an assumption in the evidence)."""
+    if _FLOAT_PATCHED:
+        return
+    import crosshair.libimpl.builtinslib as bl
+    bl._PYTYPE_TO_WRAPPER_TYPE[float] = ((bl.RealBasedSymbolicFloat, 1.0),)
+    _FLOAT_PATCHED.append(True)
+
+
 def run_ch(task):
     from crosshair.core import analyze_function
+    _float_as_real()
     from crosshair.core_and_libs import standalone_statespace  # noqa: F401  (registers library patches)
     from crosshair.options import AnalysisOptionSet
     from crosshair.statespace import MessageType
